@@ -330,7 +330,7 @@ func (c *compiler) leaveScopeBlock(enter *enterBlock) {
 	c.updateEnterBlock(enter)
 	leave := &leaveBlock{
 		stackSize: enter.stackSize,
-		popStash:  enter.stashSize > 0,
+		popStash:  enter.stashSize > 0 || enter.names != nil,
 	}
 	c.emit(leave)
 	for _, pc := range c.block.breaks {
